@@ -102,6 +102,24 @@ func c13Cases(e *Env) []c13Case {
 	c := mk([]int{2, 2}, "all", -1, 0)
 	c.Files[1].Directive = "none"
 	out = append(out, c)
+	// --tx-mode all rejects EVERY directive (Props.C13.fail_all_mode_any: whatever the files hold, a failed command
+	// leaves the database as it found it): each kind of directive on each file, with and without files
+	// applied by an earlier run (the operation trace is the model's: nothing is committed)
+	for _, dir := range []string{"file", "none", "all"} {
+		for dpos := 0; dpos < 3; dpos++ {
+			for _, bad := range [][2]int{{-1, 0}} {
+				for _, pre := range []int{0, 1} {
+					if pre > dpos || bad[0] >= 0 && pre > bad[0] {
+						continue
+					}
+					c := mk([]int{2, 2, 2}, "all", bad[0], bad[1])
+					c.Files[dpos].Directive = dir
+					c.Pre = pre
+					out = append(out, c)
+				}
+			}
+		}
+	}
 	return out
 }
 
